@@ -113,6 +113,8 @@ pub struct ClassRefInfo {
     /// number of parameters without default / total number of parameters
     pub required: usize,
     pub params: usize,
+    /// where the first `name = value` argument starts (after the positional ones), if any
+    pub first_named: Option<usize>,
 }
 
 #[derive(Clone, Debug)]
@@ -1236,7 +1238,7 @@ impl<'a> Sem<'a> {
         let mut positional = Vec::new();
         let named_only = npos == 0 && !ci.targs.is_empty() && self.rng.chance(1, 6);
         if npos == 0 && !force_angle && !named_only {
-            self.p.classrefs.push(ClassRefInfo { file: self.cur, name_range, class_decl: ci.decl, positional, is_multiclass: false, args_range: None, required, params: ci.targs.len() });
+            self.p.classrefs.push(ClassRefInfo { file: self.cur, name_range, class_decl: ci.decl, positional, is_multiclass: false, args_range: None, required, params: ci.targs.len(), first_named: None });
             return;
         }
         let a0 = self.here();
@@ -1252,6 +1254,7 @@ impl<'a> Sem<'a> {
             let r = (v0, self.here());
             self.p.typed_sites.push((self.cur, r, t, "template-arg"));
         }
+        let mut first_named = None;
         // some of the remaining (defaulted) parameters by name: `K<1, p3 = 5>`
         if npos < ci.targs.len() && self.rng.chance(1, 3) && self.on("named-argument") {
             let mut rest: Vec<usize> = (npos..ci.targs.len()).collect();
@@ -1262,6 +1265,9 @@ impl<'a> Sem<'a> {
                     self.w(", ");
                 }
                 let st = self.here();
+                if first_named.is_none() {
+                    first_named = Some(st);
+                }
                 let pname = ci.targs[i].0.clone();
                 self.w(&pname);
                 self.w(" = ");
@@ -1275,7 +1281,7 @@ impl<'a> Sem<'a> {
         }
         self.w(">");
         let ar = Some((a0, self.here()));
-        self.p.classrefs.push(ClassRefInfo { file: self.cur, name_range, class_decl: ci.decl, positional, is_multiclass: false, args_range: ar, required, params: ci.targs.len() });
+        self.p.classrefs.push(ClassRefInfo { file: self.cur, name_range, class_decl: ci.decl, positional, is_multiclass: false, args_range: ar, required, params: ci.targs.len(), first_named });
     }
 
     // ---- declarations ------------------------------------------------------------------------
@@ -2021,7 +2027,7 @@ impl<'a> Sem<'a> {
             self.w(">");
             ar = Some((a0, self.here()));
         }
-        self.p.classrefs.push(ClassRefInfo { file: self.cur, name_range, class_decl: m.decl, positional, is_multiclass: true, args_range: ar, required, params: m.targs.len() });
+        self.p.classrefs.push(ClassRefInfo { file: self.cur, name_range, class_decl: m.decl, positional, is_multiclass: true, args_range: ar, required, params: m.targs.len(), first_named: None });
     }
 
     fn defm_stmt(&mut self) {
@@ -2191,6 +2197,7 @@ impl Program {
             for a in c.positional.iter_mut() {
                 a.0 = m(c.file, a.0);
             }
+            c.first_named = c.first_named.map(|o| m(c.file, o));
         }
         for l in p.lets.iter_mut() {
             l.name_range = mr(l.file, l.name_range);
